@@ -66,7 +66,7 @@ def main():
     out.append("`C11_r10` and `C11_r6` were each missed under one seed at some point; the generator was stratified, budgets raised, the flavour decorrelated from the")
     out.append("strata and the `djb` operands steered; `C11_r6` and `C11_r10` were then caught under four seeds each (20261002, 7, 424242, 99).\n")
     out.append("## Seeded changes written by independent sub-agents (`seeded/<id>/`)\n")
-    out.append("Each agent received the property text, a scratch worktree and (rounds 2-3) a list of library areas to consider or to avoid - nothing from /verif.")
+    out.append("Each agent received the property text, a scratch worktree and (later rounds) a list of library areas to consider or to avoid - nothing from /verif.")
     out.append("Every change was confirmed by me in that worktree (compiles, `make check` 15/15 with the change, demonstration fails with it and passes without it)")
     out.append("and then run through `python3 sim/seedrun.py`.\n")
     out.append("| id | property | what the change does | what it needs to manifest | result |")
